@@ -3,6 +3,7 @@ package props
 import (
 	"fmt"
 	"math"
+	"runtime"
 
 	"gopkg.in/typ.v4/slices"
 	"verifharness/internal/core"
@@ -249,9 +250,13 @@ func runC12(c *core.Ctx) {
 	// pointers) and zero-capacity slices; big and round Grow amounts
 	if c.Index%3 == 0 {
 		ok := false
-		switch (c.Index / 3) % 8 {
+		switch (c.Index / 3) % 10 {
 		case 7:
 			ok = typedSplice(c, "int8", func(i int) int8 { return int8(-(i%120 + 2)) }) // negative values: sign extension
+		case 8:
+			ok = typedSplice(c, "int16", func(i int) int16 { return int16(i*7 + 1) })
+		case 9:
+			ok = typedSplice(c, "bool", func(i int) bool { return i%3 != 0 })
 		case 0:
 			ok = typedSplice(c, "[9]int64", func(i int) [9]int64 { return [9]int64{int64(i), 1, 2, 3, 4, 5, 6, 7, int64(-i)} })
 		case 1:
@@ -402,6 +407,25 @@ func typedSplice[T comparable](c *core.Ctx, tname string, val func(i int) T) boo
 			}
 			c.Count("typed_insertslice_one_buffer", 1)
 		}
+		// the helpers instantiated with a DEFINED slice type
+		{
+			type myT []T
+			d := myT(mk(n, spare, 0))
+			orig := append([]T(nil), d...)
+			v := val(88888)
+			want := append(append(append([]T{}, orig[:idx]...), v), orig[idx:]...)
+			slices.Insert(&d, idx, v)
+			if !eqSlice([]T(d), want) {
+				return fail("Insert:defined-slice-type", fmt.Sprintf("Insert through a defined slice type (len=%d index=%d): got %s want %s", n, idx, short(d), short(want)))
+			}
+			slices.Remove(&d, idx)
+			if !eqSlice([]T(d), orig) {
+				return fail("Remove:defined-slice-type", "Insert then Remove at the same index through a defined slice type did not restore the slice")
+			}
+			if cl := slices.Clone(d); !eqSlice([]T(cl), orig) || len(slices.Concat(d, d)) != 2*n || len(slices.Grow(d, 3)) != n+3 {
+				return fail("Clone/Concat/Grow:defined-slice-type", "Clone/Concat/Grow through a defined slice type give wrong lengths or contents")
+			}
+		}
 		// Remove / RemoveSlice
 		if n > 0 {
 			i := r.Intn(n)
@@ -528,6 +552,48 @@ func typedSplice[T comparable](c *core.Ctx, tname string, val func(i int) T) boo
 				}
 			}
 			c.Count("typed_concat_clone_fill_reverse_repeat", 1)
+		}
+	}
+	// results that are the only reference to what they hold must survive a garbage
+	// collection (values built at run time, e.g. strings)
+	{
+		a, b := mk(30, 0, 0), mk(30, 0, 5000)
+		res := slices.Concat(a, b)
+		cl := slices.Clone(a)
+		rp := slices.Repeat(val(4711), 20)
+		a, b = nil, nil // res, cl and rp are now the ONLY references to what their elements point to
+		for k := 0; k < 3; k++ {
+			runtime.GC()
+			junk := make([][]byte, 0, 256)
+			for i := 0; i < 256; i++ {
+				junk = append(junk, []byte(fmt.Sprint("junk-", i, k, "................................")))
+			}
+			_ = junk
+		}
+		// the expected values are built afresh (equal contents, other memory)
+		ok := len(res) == 60 && len(cl) == 30 && len(rp) == 20 && rp[19] == val(4711) && rp[0] == val(4711)
+		for i := 0; ok && i < 30; i++ {
+			ok = res[i] == val(i+1) && res[30+i] == val(5000+i+1) && cl[i] == val(i+1)
+		}
+		if !ok {
+			return fail("result-lost-after-GC", "the result of Concat/Clone/Repeat, kept as the only reference to its elements, reads differently after garbage collections and new allocations")
+		}
+	}
+	// Fill on windows into a larger buffer that start at every offset 0..9 (alignment of
+	// the first element varies) and are 64..200 elements long
+	for k := 0; k < 10; k++ {
+		ln := r.Range(64, 200)
+		buf := make([]T, k+ln+5)
+		for i := range buf {
+			buf[i] = val(600 + i)
+		}
+		fv := val(31)
+		slices.Fill(buf[k:k+ln], fv)
+		for i := range buf {
+			inside := i >= k && i < k+ln
+			if (inside && buf[i] != fv) || (!inside && buf[i] != val(600+i)) {
+				return fail("Fill:window", fmt.Sprintf("Fill on buf[%d:%d] of a buffer of %d elements: element %d is wrong (inside the window: %v)", k, k+ln, len(buf), i, inside))
+			}
 		}
 	}
 	c.Count("typed_cases_"+tname, 1)
